@@ -362,6 +362,12 @@ func (e *Exec) eqValues(a, b Value) *Term {
 	case *GoObj:
 		y, _ := b.(*GoObj)
 		return tt.Bool(x == y)
+	case *BytePtr:
+		y, ok := b.(*BytePtr)
+		if !ok {
+			return tt.False
+		}
+		return tt.And(tt.Bool(x.Mem == y.Mem), tt.Eq(x.Idx, y.Idx))
 	}
 	panic(fmt.Sprintf("eqValues: unsupported %T", a))
 }
@@ -385,7 +391,8 @@ type SymBytes struct {
 // ByteMem is a mutable byte memory object: an SMT array term updated in place.
 type ByteMem struct {
 	ID  int
-	Arr *Term // (Array BV64 BV8)
+	Arr *Term     // base array (Array BV64 BV8)
+	W   *memWrite // persistent list of writes over the base
 }
 
 func valueString(v Value) string {
